@@ -8,10 +8,13 @@ package main
 
 import (
 	"bytes"
+	"encoding/json"
 	"fmt"
 	"io"
 	"net"
 	"os"
+	"os/exec"
+	"path/filepath"
 	"regexp"
 	"runtime"
 	"strconv"
@@ -540,5 +543,70 @@ func liveRoundsFrom(r *core.Run, start, n int) {
 		cw.Wait()
 		w.stop()
 		r.Count("live_rounds", 1)
+	}
+}
+
+// liveWorker is the child entry "vcheck worker live <prop> <seed> <start> <n>": it runs live rounds in a
+// binary built with another toolchain and forwards findings to the parent.
+func liveWorker(args []string) {
+	prop := args[0]
+	seed, _ := strconv.ParseInt(args[1], 10, 64)
+	start, _ := strconv.Atoi(args[2])
+	n, _ := strconv.Atoi(args[3])
+	os.Setenv("VERIF_SEED", strconv.FormatInt(seed, 10))
+	r := core.NewRun(prop, "thorough", "exploration")
+	var mu sync.Mutex
+	r.Sink = func(key, what, kind string, cs any) {
+		b, _ := json.Marshal(map[string]any{"key": key, "what": what, "kind": kind, "case": cs})
+		mu.Lock()
+		fmt.Printf("FINDING %s\n", b)
+		mu.Unlock()
+	}
+	liveRoundsFrom(r, start, n)
+	b, _ := json.Marshal(map[string]any{"counters": r.Counters(), "kinds": r.Marks("live_kinds"), "go": runtime.Version()})
+	fmt.Printf("LIVEDONE %s\n", b)
+}
+
+// liveOtherToolchain runs live rounds in the vcheck binary ./check built with go1.26.8 (thorough tier).
+func liveOtherToolchain(r *core.Run, start, n int) {
+	bin := filepath.Join(os.Getenv("VERIF_BIN"), "vcheck-go1.26.8")
+	if _, err := os.Stat(bin); err != nil {
+		r.Set("second_toolchain", "not built (quick tier)")
+		return
+	}
+	cmd := exec.Command(bin, "worker", "live", r.Prop, strconv.FormatInt(r.Seed, 10), strconv.Itoa(start), strconv.Itoa(n))
+	cmd.Env = os.Environ()
+	out, err := cmd.Output()
+	done := false
+	for _, line := range strings.Split(string(out), "\n") {
+		switch {
+		case strings.HasPrefix(line, "FINDING "):
+			var f struct {
+				Key, What, Kind string
+				Case            json.RawMessage
+			}
+			if json.Unmarshal([]byte(line[8:]), &f) == nil {
+				r.Violation(f.Key+"@go1.26.8", f.What, f.Kind, f.Case)
+			}
+		case strings.HasPrefix(line, "LIVEDONE "):
+			var d struct {
+				Counters map[string]int64
+				Kinds    []string
+				Go       string
+			}
+			if json.Unmarshal([]byte(line[9:]), &d) == nil {
+				done = true
+				r.Eval(int(d.Counters["live_rounds"]))
+				r.Set("second_toolchain", d.Go)
+				r.Set("second_toolchain_live_rounds", d.Counters["live_rounds"])
+				r.Set("second_toolchain_known_goroutines_checked", d.Counters["live_known_goroutines_checked"])
+				for _, k := range d.Kinds {
+					r.Mark("live_kinds_"+d.Go, k)
+				}
+			}
+		}
+	}
+	if !done {
+		r.Violation("live-worker-died@go1.26.8", fmt.Sprintf("live rounds under go1.26.8 died: %v", err), "live", nil)
 	}
 }
